@@ -373,7 +373,19 @@ class Interp:
         if isinstance(target, ast.Name):
             env[target.id] = value
         elif isinstance(target, (ast.Tuple, ast.List)):
-            vals = list(value)
+            vals = list(self.iterate(value)) if not isinstance(value, (list, tuple)) else list(value)
+            stars = [i for i, t in enumerate(target.elts) if isinstance(t, ast.Starred)]
+            if stars:
+                i = stars[0]
+                after = len(target.elts) - i - 1
+                if len(vals) < len(target.elts) - 1:
+                    raise Raised("ValueError", "unpack")
+                for t, v in zip(target.elts[:i], vals[:i]):
+                    self.assign(t, v, env, func, depth)
+                self.assign(target.elts[i].value, vals[i:len(vals) - after], env, func, depth)
+                for t, v in zip(target.elts[i + 1:], vals[len(vals) - after:]):
+                    self.assign(t, v, env, func, depth)
+                return
             if len(vals) != len(target.elts):
                 raise Raised("ValueError", "unpack")
             for t, v in zip(target.elts, vals):
@@ -459,6 +471,24 @@ class Interp:
                     break
                 except _Continue:
                     continue
+        elif t is ast.With:
+            suppress = []
+            for item in st.items:
+                ce = item.context_expr
+                if isinstance(ce, ast.Call) and (dotted(ce.func) or "").split(".")[-1] == "suppress":
+                    suppress += [(dotted(a) or "").split(".")[-1] for a in ce.args]
+                else:
+                    v = self.eval(ce, env, func, depth)
+                    if item.optional_vars is not None:
+                        self.assign(item.optional_vars, v, env, func, depth)
+            if suppress:
+                try:
+                    self.exec_block(st.body, env, func, depth)
+                except Raised as r_:
+                    if not any(self.exc_matches(r_.exc_name, n_) for n_ in suppress):
+                        raise
+            else:
+                self.exec_block(st.body, env, func, depth)
         elif t is ast.Break:
             raise _Break()
         elif t is ast.Continue:
@@ -590,7 +620,11 @@ class Interp:
                 return a * b
             if isinstance(op, ast.Mod):
                 if isinstance(a, str):
-                    return Opaque("str%")
+                    args_ = b if isinstance(b, tuple) else (b,)
+                    conv = tuple(self.py_str(x) if isinstance(x, (Obj, EnumVal)) else x for x in args_)
+                    if any(isinstance(x, Opaque) for x in conv):
+                        return Opaque("str%")
+                    return a % conv
                 return a % b
             if isinstance(op, ast.FloorDiv):
                 return a // b
@@ -755,6 +789,12 @@ class Interp:
                 return self.overrides.get("random", ("pymodule", "random"))
             if mod is not None and n.id in mod.imports and mod.imports[n.id] == ("abc", "ABC"):
                 return ClassTok("ABC")
+            if mod is not None and n.id in mod.imports and mod.imports[n.id][0] == "operator" and mod.imports[n.id][1] in ("attrgetter", "itemgetter", "methodcaller"):
+                return ("builtin", mod.imports[n.id][1])
+            if mod is not None and n.id in mod.imports and mod.imports[n.id] in (("functools", "partial"), ("typing", "cast")):
+                return ("builtin", mod.imports[n.id][1])
+            if mod is not None and n.id in mod.imports and mod.imports[n.id][0] in ("operator", "contextlib", "functools") and mod.imports[n.id][1] is None:
+                return ("pymodule", mod.imports[n.id][0])
             if mod is not None and n.id in mod.imports and mod.imports[n.id] == ("collections", "defaultdict"):
                 return ("builtin", "defaultdict")
             if mod is not None and n.id in mod.imports and mod.imports[n.id] == ("dataclasses", "astuple"):
@@ -769,7 +809,8 @@ class Interp:
             if n.id in BUILTIN_EXC or n.id in ("len", "min", "max", "abs", "type", "isinstance", "str", "int", "sum",
                                                "any", "all", "sorted", "reversed", "list", "tuple", "zip", "range",
                                                "enumerate", "set", "bool", "iter", "next", "repr", "dict", "frozenset", "hash", "slice",
-                                               "getattr", "hasattr", "object", "print", "id", "map"):
+                                               "getattr", "hasattr", "object", "print", "id", "map", "filter", "divmod", "round",
+                                               "callable", "ord", "chr", "pow"):
                 return ("builtin", n.id)
             raise Uninterpretable(f"name {n.id} in {func.qual if func else '?'}")
         if t is ast.Attribute:
@@ -906,6 +947,10 @@ class Interp:
             return ("lambda", n, dict(env))
         if t is ast.Call:
             return self.eval_call(n, env, func, depth)
+        if t is ast.NamedExpr:
+            v = self.eval(n.value, env, func, depth)
+            env[n.target.id] = v
+            return v
         if t is ast.Yield:
             env["__yields__"].append(self.eval(n.value, env, func, depth) if n.value is not None else None)
             return None
@@ -1145,9 +1190,12 @@ class Interp:
             if isinstance(o, SetVal):
                 return self.set_method(o, name, args, depth)
             if name == "format":
-                if all(isinstance(a, (str, int, bool, type(None))) for a in list(args) + list(kwargs.values())):
-                    return o.format(*args, **kwargs)
-                return Opaque("str")
+                conv = lambda a: a if isinstance(a, (str, int, float, bool, type(None))) else self.py_str(a, depth)  # noqa: E731
+                cargs = [conv(a) for a in args]
+                ckw = {k: conv(v) for k, v in kwargs.items()}
+                if any(isinstance(a, Opaque) for a in cargs + list(ckw.values())):
+                    return Opaque("str")
+                return o.format(*cargs, **ckw)
             if name == "join":
                 items = self.iterate(args[0])
                 if all(isinstance(a, str) for a in items):
@@ -1297,6 +1345,10 @@ class Interp:
             return min(vals) if name == "min" else max(vals)
         if name == "abs":
             return abs(args[0])
+        if name in ("divmod", "round", "ord", "chr", "pow"):
+            return {"divmod": divmod, "round": round, "ord": ord, "chr": chr, "pow": pow}[name](*args)
+        if name == "callable":
+            return isinstance(args[0], tuple) and args[0] and args[0][0] in ("bound", "closure", "lambda", "native", "builtin", "pymethod")
         if name == "type":
             v = args[0]
             if isinstance(v, Obj):
@@ -1355,7 +1407,7 @@ class Interp:
         if name == "bool":
             return self.truth(args[0])
         if name == "sum":
-            return sum(self.iterate(args[0]))
+            return sum(self.iterate(args[0]), *args[1:])
         if name == "any":
             return any(self.truth(x) for x in self.iterate(args[0]))
         if name == "all":
@@ -1389,6 +1441,28 @@ class Interp:
             d = DDict()
             d.factory = args[0] if args else None
             return d
+        if name == "attrgetter":
+            names = list(args)
+            def getter(x, names=names):
+                vals = []
+                for nm_ in names:
+                    cur = x
+                    for part in nm_.split("."):
+                        cur = self.getattr(cur, part, func, depth)
+                    vals.append(cur)
+                return vals[0] if len(vals) == 1 else tuple(vals)
+            return ("native", getter)
+        if name == "itemgetter":
+            keys = list(args)
+            return ("native", (lambda x, keys=keys: x[keys[0]] if len(keys) == 1 else tuple(x[k] for k in keys)))
+        if name == "methodcaller":
+            mname, margs = args[0], list(args[1:])
+            return ("native", lambda x: self.apply(self.getattr(x, mname, func, depth), margs, dict(kwargs), func, depth))
+        if name == "partial":
+            f0, a0, k0 = args[0], list(args[1:]), dict(kwargs)
+            return ("native", lambda *a, **k: self.apply(f0, a0 + list(a), {**k0, **k}, func, depth))
+        if name == "cast":
+            return args[1]
         if name == "map":
             return _Gen([self.apply(args[0], [x], {}, func, depth) for x in self.iterate(args[1])])
         if name == "astuple":
@@ -1421,10 +1495,12 @@ class Interp:
             return _Gen(list(reversed(self.iterate(args[0]))))
         if name == "zip":
             return list(zip(*[self.iterate(a) for a in args]))
+        if name == "filter":
+            return _Gen([x for x in self.iterate(args[1]) if self.truth(x if args[0] is None else self.apply(args[0], [x], {}, func, depth))])
         if name == "range":
             return list(range(*args))
         if name == "enumerate":
-            return list(enumerate(self.iterate(args[0]), *(args[1:])))
+            return list(enumerate(self.iterate(args[0]), *(args[1:]), **kwargs))
         if name == "dict":
             return dict(*args, **kwargs)
         if name == "iter":
